@@ -270,7 +270,7 @@ class Type3Tag(nfc.tag.Tag):
         self.idm = target.sensf_res[1:9]
         self.pmm = target.sensf_res[9:17]
         self.sys = 0xFFFF
-        if len(target.sensf_res) > 17:
+        if len(target.sensf_res) >= 19:
             self.sys = unpack(">H", target.sensf_res[17:19])[0]
         self._nfcid = bytearray(self.idm)
 
